@@ -151,3 +151,61 @@ def main(kind="2W"):
 
 if __name__ == "__main__":
     main(sys.argv[1] if len(sys.argv) > 1 else "2W")
+
+
+def main_sc():
+    """short-circuit calculation: transformers with tap_dependency_table against the same transformers with the values of their table rows
+    entered directly (the table's voltage ratio equals the Ratio tap changer that stays entered)"""
+    import copy
+    import pandapower.shortcircuit as sc
+    fails = []
+    rows = []
+    for cid in (0, 1):
+        for step in range(-2, 3):
+            rows.append(dict(id_characteristic=cid, step=step, voltage_ratio=1 + 0.0125 * step, angle_deg=0., vk_percent=12. + 2 * step + cid,
+                             vkr_percent=0.4 + 0.05 * step, vk_hv_percent=10. + step + cid, vkr_hv_percent=0.3 + 0.02 * step,
+                             vk_mv_percent=11. + step, vkr_mv_percent=0.31, vk_lv_percent=12. - step, vkr_lv_percent=0.32))
+    table = pd.DataFrame(rows)
+
+    def net2w():
+        net = pp.create_empty_network()
+        b0 = pp.create_bus(net, 110.)
+        pp.create_ext_grid(net, b0, s_sc_max_mva=5000, rx_max=0.1, s_sc_min_mva=3000, rx_min=0.1, x0x_max=1.0, r0x0_max=0.1, x0x_min=1.0, r0x0_min=0.1)
+        for cid, pos in ((0, 2), (0, -2), (1, 1)):
+            lv = pp.create_bus(net, 20.)
+            pp.create_transformer_from_parameters(net, b0, lv, sn_mva=25, vn_hv_kv=110, vn_lv_kv=20, vkr_percent=0.4, vk_percent=12., pfe_kw=10,
+                                                  i0_percent=0.05, tap_side="hv", tap_neutral=0, tap_min=-2, tap_max=2, tap_step_percent=1.25,
+                                                  tap_step_degree=0, tap_pos=pos, tap_changer_type="Ratio", tap_dependency_table=True,
+                                                  id_characteristic_table=cid, vector_group="Dyn", vk0_percent=11., vkr0_percent=0.4,
+                                                  mag0_percent=100., mag0_rx=0., si0_hv_partial=0.9)
+        net["trafo_characteristic_table"] = table.copy()
+        return net
+
+    def direct(net):
+        d = copy.deepcopy(net)
+        tab = table.set_index(["id_characteristic", "step"])
+        for i in d.trafo.index:
+            row = tab.loc[(d.trafo.at[i, "id_characteristic_table"], d.trafo.at[i, "tap_pos"])]
+            d.trafo.at[i, "tap_dependency_table"] = False
+            d.trafo.at[i, "vk_percent"] = row.vk_percent
+            d.trafo.at[i, "vkr_percent"] = row.vkr_percent
+        return d
+    net = net2w()
+    ref = direct(net)
+    for fault, case in (("3ph", "max"), ("3ph", "min"), ("1ph", "max")):
+        try:
+            sc.calc_sc(net, case=case, fault=fault); sc.calc_sc(ref, case=case, fault=fault)
+        except Exception as e:
+            print(f"note: calc_sc(fault={fault}, case={case}) raised {type(e).__name__}: {e}")
+            continue
+        for bus in net.trafo.lv_bus:
+            a, b = net.res_bus_sc.ikss_ka.at[bus], ref.res_bus_sc.ikss_ka.at[bus]
+            if abs(a / b - 1) > 1e-6:
+                fails.append(f"calc_sc(fault={fault}, case={case}), bus {bus}: ikss_ka = {a:.5f} with the tap dependency table, {b:.5f} with the values "
+                             f"of the table row entered directly ({(a / b - 1) * 100:+.2f} %)")
+                break
+    for f in fails:
+        print("REPRODUCED:", f)
+    if not fails:
+        print("not reproduced: short-circuit currents of table transformers equal those with the row values entered directly")
+    sys.exit(1 if fails else 0)
